@@ -255,7 +255,7 @@ def gen_statement(e, d, family, quick):
             pass
         st = {'k': 'table_create', 'calls': calls}
     elif family == 'alter':
-        n = 1 + (0 if d == 'sqlite' else e.choose(2 if quick else 3, 'nopts')); calls = [['table', T]]
+        n = 1 + (0 if d == 'sqlite' else e.choose(2, 'nopts')); calls = [['table', T]]      # sequences of 3 options did not finish within the thorough budget
         for i in range(n):
             ok = e.choose(7, 'opt')
             if d == 'sqlite' and ok in (2, 5, 6): raise PathEnd()       # SQLite cannot modify columns or foreign keys of an existing table (the builder panics by design)
@@ -360,7 +360,7 @@ def run(ctx, dialects=DIALECTS, families=('column', 'table', 'alter', 'index', '
     items = [(f, d, quick) for f in families for d in dialects]
     ctx.bounds = {'column': 'one column: every ColumnType variant of the dialect (lengths / precisions / scales symbolic numbers) x every duplicate-free specification sequence of length <= %d over %s' % (2 if quick else 3, SPEC_KINDS),
                   'table': 'CREATE TABLE with 1-2 columns, optional IF NOT EXISTS, schema prefix, 0-1 index (plain / unique / primary, 1-2 columns, order), 0-1 foreign key (1-2 column pairs, actions), 0-1 check, MySQL table options',
-                  'alter': 'ALTER TABLE with <= %d options over add / add-if-not-exists / modify (optional type, <= 2 specifications) / rename / drop column, add / drop foreign key' % (2 if quick else 3),
+                  'alter': 'ALTER TABLE with <= %d options over add / add-if-not-exists / modify (optional type, <= 2 specifications) / rename / drop column, add / drop foreign key' % 2,
                   'index': 'CREATE INDEX: columns with order / prefix, unique, IF NOT EXISTS, index type, Postgres INCLUDE and partial predicate', 'fk': 'foreign key: 1-2 column pairs x all referential actions',
                   'dialects': list(dialects)}
     ctx.assumptions += ['an ALTER TABLE whose every option is a Postgres no-op (comment-only column modification) is excluded', 'DDL grammars and dialect type tables in props/ddlskel.py (from the manuals); synonyms of a type name are accepted', 'ColumnSpec::Extra / raw table extra are free text and not generated',
